@@ -3,8 +3,10 @@ Specs: specs/gsp/Processor.tla (abstract machine whose guards are the clauses of
 system with an explicit semaphore, model-checked by TLC: the guards keep the semaphore balanced and within
 capacity), ProcessorTrace.tla (trace specification).  Seeded scenarios (random DAGs with missing parents,
 duplicates, events around the far-future threshold, 1-8 concurrent enqueuers, ordered and unordered batches,
-failing parentless/parents checks and Process calls, tight semaphore capacities and buffer limits, early Stop)
-run on the real Processor; every Enqueue call/return, Exists, Process, Released, done callback, idle sample and
+failing parentless/parents checks and Process calls, tight semaphore capacities and buffer limits, Stop while
+batches are in flight: at a random moment, with random yields inside the callbacks, and with the inserter held in the
+HighestLamport callback of a last event with a missing parent until Stop has been called and progressed) run on the
+real Processor; every Enqueue call/return, Exists, Process, Released, done callback, idle sample and
 Stop is recorded with the semaphore's Processing() value and the trace is validated by TLC."""
 import json
 import vlib
@@ -31,7 +33,7 @@ def run(c):
     c.log("executed on the real Processor:", stats)
     for g in ("enqueue_ok", "enqueue_ok_ordered", "process_ok", "process_fail", "released:bad event", "released:bad parents",
               "dropped_far_future", "released:event is spilled", "released:event is duplicated",
-              "released:event is connected already", "idle_samples", "idle_with_parked_events", "early_stop"):
+              "released:event is connected already", "idle_samples", "idle_with_parked_events", "early_stop", "gated_stop"):
         c.guard(g, stats.get(g, 0))
     wd = stats.get("scenarios_with_watchdog", 0)
     if wd:
@@ -57,13 +59,15 @@ def run(c):
         traces_validated_against_impl=r["scenarios"], trace_lines_validated=r["validated_lines"],
         rule="%d seeded scenarios (seed*1000003+k), each a fresh Processor + DataSemaphore: 6-35 events plus far-future candidates, "
              "batches of 1-8 events, 1-8 enqueuers, ordered/unordered, check/parents/process failures, buffer limits 2..40, "
-             "semaphore capacities from below one batch to ample, early Stop in 1/6; every recorded line validated against "
+             "semaphore capacities from below one batch to ample, early Stop in 1/6, callback jitter in 1/3, gated Stop (inserter held "
+             "in HighestLamport before pushing a last event with a missing parent until Stop() was called) in 1/4; every recorded line validated against "
              "Processor.tla" % runs,
         harness_stats=stats, watchdog_scenarios=wd, samples=[gsp_util.head_lines(trace, 14)],
     ), assumptions=[
         "all trace lines of a scenario are written under one mutex that also guards the environment (connected set, highest Lamport); "
         "event callbacks run on the processor's single inserter goroutine or inside Stop",
-        "'finished handling' = the batch's done callback ran before Stop was called (Stop interrupts a batch and still runs its done callback)",
+        "'accepted and finished handling', judged when Stop returns = the done callback ran and every event of the batch was handled "
+        "(released, or its first Exists was seen; Stop may interrupt a batch and still runs its done callback, leaving unhandled events)",
         "the order clause is asserted for events that occur in one enqueued copy only (a duplicate in another batch may arrive first)",
         "a watchdog expiry (Enqueue blocked beyond its timeout) is attributed to C30/F10, reported as a note, never as a C15 violation",
         "scenarios are sampled (seeded), not enumerated: the concurrent schedule is whatever the Go scheduler produces",
